@@ -549,16 +549,21 @@ Wit == [
   R_addr_of_bitfield |-> {FUn("addr", "gsbf")},
   R_addr_of_register |-> {FUn("addr", "lr")},
   R_incdec_nonlvalue |-> {FUn("preinc", "k1"), FUn("postinc", "ga"), FUn("predec", "gf")},
-  R_incdec_const |-> {FUn("preinc", "gc"), FUn("postinc", "gc"), FUn("preinc", "gcbf")},
+  R_incdec_const |-> {FUn("preinc", "gc"), FUn("postinc", "gc"), FUn("preinc", "gcbf"),
+     FUn("postinc", "gcspa1"), FUn("preinc", "gcsa1"), FUn("predec", "gta1"), FUn("postinc", "gcspm2"), FUn("preinc", "gcap1"), FUn("postinc", "gcspin")},
   R_incdec_type |-> {FUn("postinc", "gs"), FUn("preinc", "gv"), FUn("postinc", "gfp")},
   R_sizeof_function |-> {FUn("sizeof", "gf"), FSizeofT("sizeof", "fn_ii"), FSizeofT("_Alignof", "fn_ii")},
   R_sizeof_bitfield |-> {FUn("sizeof", "gsbf")},
   R_abstract_declarator_ident |-> {FSizeofT("sizeof", "named_abstract"), FSizeofT("_Alignof", "named_abstract")},
   R_sizeof_incomplete |-> {FSizeofT("sizeof", "void"), FSizeofT("sizeof", "struct_I"), FSizeofT("sizeof", "arr_unk"), FSizeofT("_Alignof", "struct_I")},
   R_assign_nonlvalue |-> {FAsg("=", "k1", "gi"), FAsg("=", "ga", "k0"), FAsg("=", "gf", "k0"), FAsg("+=", "k1", "gi")},
-  R_assign_const |-> {FAsg("=", "gc", "gi"), FAsg("+=", "gc", "k1"), FAsg("=", "gcbf", "k1"), FAsg("+=", "gcbf", "k1")},
+  R_assign_const |-> {FAsg("=", "gc", "gi"), FAsg("+=", "gc", "k1"), FAsg("=", "gcbf", "k1"), FAsg("+=", "gcbf", "k1"),
+     \* the const is inherited from the enclosing struct / the typedef'd array type
+     FAsg("=", "gcsa1", "k1"), FAsg("=", "gcspa1", "gi"), FAsg("=", "gcspin", "k1"), FAsg("=", "gcspm2", "k1"), FAsg("=", "gta1", "k1"),
+     FAsg("=", "gcap1", "k1"), FAsg("+=", "gcspa1", "k1"), FAsg("<<=", "gta1", "k1")},
   R_incompatible_ptr |-> {FAsg("=", "gp", "gq"), FAsg("=", "gp", "gi"), FAsg("=", "gp", "gcp"), FSInit("ptr_int", "gq"), FSInit("ptr_char", "gp"),
-     FSInit("ptr_int", "gcp"), FSInit("ptr_int", "gi"), FSInit("ptr_int", "ks"), FCall("gpf", <<"gq">>), FCall("gpf", <<"gi">>), FStrInit("charp", "wide")},
+     FSInit("ptr_int", "gcp"), FSInit("ptr_int", "gi"), FSInit("ptr_int", "ks"), FCall("gpf", <<"gq">>), FCall("gpf", <<"gi">>), FStrInit("charp", "wide"),
+     FSInit("ptr_int", "gcspa"), FSInit("ptr_int", "gcapd"), FSInit("ptr_int", "gta"), FAsg("=", "gp", "gcspa"), FAsg("=", "gp", "gta"), FAsg("=", "gv", "gcapd")},
   R_assign_incompatible |-> {FAsg("=", "gi", "gp"), FAsg("=", "gi", "gs"), FAsg("=", "gs", "gt"), FAsg("=", "gs", "gi"), FAsg("=", "gp", "gd"),
      FSInit("int", "gp"), FSInit("int", "gs"), FSInit("ptr_int", "gd"), FSInit("double", "gp"), FSInit("int", "ks"),
      FCall("gf", <<"gp">>), FCall("gf", <<"gs">>), FCall("gsfn", <<"gt">>), FCall("gsfn", <<"gi">>), FSInit("bool", "gs")},
@@ -700,7 +705,7 @@ Wit == [
   R_dir_extra_tokens |-> {[D0("undef") EXCEPT !.extra = TRUE]},
   R_macro_arity |-> {FMinv(1, TRUE), FMinv(3, TRUE), FMinv(0, TRUE), FMinvM(1, TRUE, "MG"), FMinvM(3, TRUE, "MG")},
   R_macro_unterminated |-> {FMinv(2, FALSE), FMinvM(1, FALSE, "MG")},
-  U_volatile_store |-> {FAsg("=", "gvol", "gi"), FAsg("+=", "gvol", "k1"), FUn("preinc", "gvol")},
+  U_volatile_store |-> {FAsg("=", "gvsa1", "k1"), FAsg("+=", "gvsa1", "gi"), FAsg("=", "gvol", "gi"), FAsg("+=", "gvol", "k1"), FUn("preinc", "gvol")},
   U_long_double |-> {FBin("+", "gld", "gi"), FBin("<", "gi", "gld"), FAsg("=", "gld", "gd"), FAsg("=", "gd", "gld"), FUn("neg", "gld"), FUn("lnot", "gld"),
      FCast("int", "gld"), FSInit("double", "gld"), FCtl("if", "gld")},
   U_atomic |-> {FSpec(<<"_Atomic", "int">>)},
@@ -758,6 +763,10 @@ BenignFrags == {
   FEnumFix("short", FALSE, 15, -1, "int", FALSE), FEnumFix("short", TRUE, 15, 0, "long", FALSE), FEnumFix("unsigned char", FALSE, 8, -1, "int", FALSE),
   FEnumFix("unsigned char", FALSE, 8, -1, "ulong", FALSE), FEnumFix("unsigned char", FALSE, -1, 0, "int", FALSE), FEnumFix("unsigned", FALSE, 32, -1, "unsigned", FALSE),
   FEnumFix("unsigned", FALSE, 32, -1, "long", FALSE), FEnumFix("unsigned", FALSE, 32, -1, "ulong", FALSE), FEnumFix("unsigned", FALSE, 31, 0, "ulong", TRUE),
+  FAsg("=", "gssa1", "k1"), FAsg("=", "gsspa1", "gi"), FAsg("+=", "gsspa1", "k1"), FUn("postinc", "gsspa1"), FUn("preinc", "gssa1"),
+  FSInit("ptr_int", "gsspa"), FSInit("ptr_cint", "gcspa"), FSInit("ptr_cint", "gta"), FAsg("=", "gcp", "gcspa"), FAsg("=", "gcp", "gcapd"),
+  FAsg("=", "gp", "gsspa"), FUn("neg", "gcsa1"), FAsg("=", "gi", "gcspin"), FAsg("=", "gi", "gcspm2"), FUn("sizeof", "gta1"), FUn("addr", "gcspa1"),
+  FAsg("=", "gi", "gvsa1"),
   FUse("gi"), FUse("ek"), FBin("+", "gp", "gi"), FBin("+", "gi", "gq"), FBin("-", "gp", "gcp"), FBin("-", "gq", "gi"), FBin("==", "gp", "k0"),
   FBin("!=", "gv", "gp"), FBin("==", "gfp", "gfp"), FBin("<", "gp", "gcp"), FBin(">=", "gv", "gv"), FBin("<=", "gip", "gip"), FBin("&", "gi", "k0"),
   FBin("%", "gi", "gi"), FBin("<<", "gi", "k0"), FBin("&&", "gp", "gd"), FBin("||", "gfp", "gi"), FBin("*", "gd", "gi"), FBin("/", "gi", "gd"),
